@@ -118,6 +118,9 @@ class ParserHooks(AwsHooks):
                     return [(num.base_of(st, bv) + "len", "aws_byte_buf", "len")]
         return None
 
+    def noalias(self, fname):
+        return NOALIAS.get(fname, ())
+
     def entry(self, num, st):
         req = REQUIRES.get(num.fn.name)
         if req:
@@ -165,6 +168,8 @@ def _chk_decl(num, st, e, args):
 
 REQUIRES = {"s_unchecked_append_canonicalized_path_character": (_req_room3, _chk_room3), "s_raw_append_canonicalized_param_character": (_req_room3, _chk_room3),
             "s_load_node_decl": (_req_decl, _chk_decl)}
+# parameters that designate a caller's local object which nothing else refers to (checked: uri_state_machine)
+NOALIAS = {"s_parse_scheme": ("str",), "s_parse_authority": ("str",), "s_parse_path": ("str",), "s_parse_query_string": ("str",)}
 APPEND_CHAR = {"s_unchecked_append_canonicalized_path_character", "s_raw_append_canonicalized_param_character"}
 PROGRESS_SKIP_FILES = ("source/cbor.c", "source/json.c")
 DELEGATED = {"aws_query_string_next_param", "aws_byte_cursor_next_split", "aws_hash_iter_done"}
@@ -402,6 +407,18 @@ def uri_state_machine(R, P):
                 R.check(bool(near), "ERRCHAN", "uri:%s:error-state-raises" % name, where(f, s_), "ERROR is set together with aws_raise_error", "state ERROR is set without registering an error code")
     d = P.fn("s_init_from_uri_str")
     if d is not None:
+        # the cursor handed to the state functions is a local of the driver whose address goes nowhere else (NOALIAS)
+        ind = d.indirect_calls()
+        users = []
+        for b in d.blocks.values():
+            for el in b.elems:
+                for x in d.walk(el):
+                    if x["k"] == "un" and x["op"] == "addr" and (d.d(x["a"][0]) or {}).get("k") == "var" and d.d(x["a"][0])["n"] == "uri_cur":
+                        users.append(x)
+        direct = [c for g in P.fns.values() for nm in own for c in g.calls(nm)]
+        R.check(len(ind) == 1 and len(users) == 1 and len(ind[0].node["a"]) == 2 and d.show(ind[0].node["a"][1]) == "&uri_cur" and not direct, "PROGRESS", "uri:state-cursor-is-private", "%s()" % d.name,
+                "the state functions are called only through the table, with the address of the driver's local cursor, which is taken nowhere else",
+                "the cursor parameter of the URI state functions is assumed to designate a private local of the driver, but they are called otherwise")
         loops = [d.show(b.cond) for b in d.blocks.values() if b.term == "while" and b.cond is not None]
         R.check(loops == ["(parser.state < FINISHED)"], "PROGRESS", "uri:driver-loop", "%s()" % d.name, "driver runs while state < FINISHED")
 
